@@ -36,6 +36,11 @@ RULE = ("alphabet of 14 symbols = 7 user control commands (Start Stop Pause Unpa
         "ticks, then every sequence of L-1 steps (base method); on each of the 5 self-commanding methods a first Start "
         "followed by 1..12 ticks, then every sequence of L-2 steps. SAMPLED: lifetimes of 5-9 steps over a wider "
         "alphabet (pause/hold commands, injected Stop/Restart/Pause/Hold, the method loaded again while Stopped). "
+        "INTERPRETER PATH (family P): the alphabet is widened by the remaining engine-command instructions the parser "
+        "accepts (injected Unpause, Unhold, Info, Warning, Error) and by Start scheduled through "
+        "Engine.schedule_execution while a run is active (the one control command without an instruction form; the "
+        "interpreter's entry has no user gating) = 20 symbols. ENUMERATED: a first Start and a tick, then every sequence "
+        "of L-1 symbols that contains at least one of the 6 added symbols, a tick after every symbol. "
         "distinct = the (method, sequence, mask) triple; non-trivial = at least "
         "one request accepted and a state other than Stopped observed")
 ASSUMPTIONS = [
@@ -61,6 +66,11 @@ ASSUMPTIONS = [
     "history, because a Restart cancels a Stop in flight and the property does not say which wins",
     "method-issued commands are issued with Engine.inject_code (same interpreter path as a method line) or by method "
     "lines; requests are applied between ticks, single-threaded",
+    "a control command that has no instruction form (Start) is scheduled through Engine.schedule_execution, the entry "
+    "the interpreter uses for command lines; only while a run is active (reported state neither Stopped nor Restarting: "
+    "the interpreter is only ticked during a run), alone in its tick gap. It counts as a Start request in the budget "
+    "(upper bounds only); the per-run clauses do not depend on Start requests, so an engine that refuses it must show "
+    "the same Run Id afterwards",
     "trusted base: engine rig (virtual clock, recording hardware), real EngineMessageBuilder.create_control_state_msg",
 ]
 REQUIRED = {"agree_checks": 300000, "gating_accepted": 10000, "gating_rejected": 50000, "runid_checks": 300000,
@@ -72,12 +82,21 @@ REQUIRED = {"agree_checks": 300000, "gating_accepted": 10000, "gating_rejected":
             "run_end_justification_checks": 10000, "restart_window_justification_checks": 5000,
             "runs_after_an_earlier_cycle": 8000,
             "later_cycle_starts_in_completion_gap": 500, "later_cycle_starts_in_completion_gap_after_a_restart": 300,
-            "cases_L": 6000, "cases_M": 8000, "cases_S": 1500}
+            "cases_L": 6000, "cases_M": 8000, "cases_S": 1500,
+            # interpreter path: every engine command of the registry is in the alphabet; Start scheduled while a run is
+            # active and the following tick judged (Run Id discipline, per-run clauses); Unpause / Unhold injected
+            "cases_P": 4000, "alphabet_covers_command_registry": 1, "scheduled_Start_while_run_active": 500,
+            "ticks_judged_after_scheduled_Start_while_run_active": 500, "injected_Unpause": 500, "injected_Unhold": 500}
 EXHAUSTIVE_ALL = False
 
 USER = ["Start", "Stop", "Pause", "Unpause", "Hold", "Unhold", "Restart"]
 INJ = ["Pause", "Pause: 0.2s", "Hold", "Hold: 0.2s", "Stop", "Restart"]
 ALPHA = ["u:" + c for c in USER] + ["tick"] + ["i:" + c for c in INJ]
+# the rest of the engine's command registry on the interpreter's path (family P): the other instruction lines the parser
+# turns into engine commands, injected; the control command that has no instruction form, scheduled through
+# Engine.schedule_execution. Compared with the registry of the code under test by registry_covered().
+NEW = ["s:Start", "i:Unpause", "i:Unhold", "i:Info: x", "i:Warning: x", "i:Error: x"]
+ALPHA2 = ALPHA + NEW
 BASE_METHOD = "Base: s\nWait: 100s\n"
 METHODS = [
     "Base: s\nWait: 0.2s\nStop\n",
@@ -143,6 +162,31 @@ def _seq_from_index(idx: int, L: int) -> list[str]:
     return out[::-1]
 
 
+def registry_covered(res: Result) -> None:
+    from openpectus.engine.models import EngineCommandEnum
+    from openpectus.lang.model.ast import EngineCommandNode
+    import openpectus.engine.internal_commands_impl as impl
+    registered = {nm[:-len("EngineCommand")] for nm in dir(impl)
+                  if isinstance(getattr(impl, nm), type) and nm.endswith("EngineCommand") and nm != "InternalEngineCommand"}
+    injected = {x[2:].split(":")[0] for x in ALPHA2 if x.startswith("i:")}
+    scheduled = {x[2:] for x in ALPHA2 if x.startswith("s:")}
+    missing = sorted(set(EngineCommandNode.instruction_names) - injected)
+    missing += sorted({str(c) for c in EngineCommandEnum if str(c) in registered} - injected - scheduled)
+    if missing:
+        res.notes.append(f"engine commands missing from the C06 interpreter-path alphabet: {missing}")
+        res.count("engine_commands_not_in_alphabet", len(missing))
+    else:
+        res.count("alphabet_covers_command_registry")
+
+
+def _seq2_from_index(idx: int, L: int) -> list[str]:
+    out = []
+    for _ in range(L):
+        out.append(ALPHA2[idx % len(ALPHA2)])
+        idx //= len(ALPHA2)
+    return out[::-1]
+
+
 def cases_for_shard(spec):
     """Yields (kind, case). The enumerated families are split over shards by index modulo."""
     L, sh, of = spec["L"], spec["shard"], spec["of"]
@@ -189,6 +233,16 @@ def cases_for_shard(spec):
                     seq, mask = flatten([("u:Start", d0)] + _steps_from_index(idx, K - 2))
                     yield "M", {"method": meth, "seq": seq, "mask": mask}
                 k += 1
+    # family P: interpreter path. A first Start and a tick, then all sequences of L-1 symbols over the widened alphabet
+    # that contain at least one of the added symbols, a tick after every symbol
+    k = 0
+    for idx in range(len(ALPHA2) ** Lb):
+        seq = _seq2_from_index(idx, Lb)
+        if not any(x in NEW for x in seq):
+            continue
+        if k % of == sh:
+            yield "P", {"method": BASE_METHOD, "seq": ["u:Start"] + seq, "mask": None}
+        k += 1
     # family S: sampled longer lifetimes over a wider alphabet (pause/hold flags, method-issued Stop/Restart, the method
     # loaded again between runs), gaps as above for the cycle commands and 0..2 ticks for the others
     rnd = random.Random(spec["seed"] ^ 0x5EED06)
@@ -448,6 +502,8 @@ def check_case(case, res: Result, kind: str = "?"):
                              f"only {Q['Stop']} Stop + {Q['Restart']} Restart requests were accepted from the user or "
                              "issued by the method"))
             # which tick gap is this: the one in which the completion of a Stop/Restart has just been reported?
+            if S.pop("sched_start", False):
+                res.count("ticks_judged_after_scheduled_Start_while_run_active")
             T["fresh_stop"] = (st == "Stopped" and S["prev"] != "Stopped")
             T["q_at_tick_end"], T["qr_at_tick_end"] = Q["Stop"] + Q["Restart"], Q["Restart"]
             if st != "Stopped":
@@ -506,6 +562,7 @@ def check_case(case, res: Result, kind: str = "?"):
                 try:
                     rig.e.inject_code(code)
                     res.count("injections")
+                    res.count("injected_" + code.split(":")[0])
                     if code == "Restart":
                         S["pending_restart"] += 1
                 except Exception as ex:  # inject_code put the engine into its error state; not a C06 input any more
@@ -514,6 +571,16 @@ def check_case(case, res: Result, kind: str = "?"):
                     aborted = True
                     break
                 hist.append((rig.k, "inj", code))
+            elif sym.startswith("s:"):
+                # a control command scheduled on the interpreter's entry (no user gating), while a run is active
+                cmd = sym[2:]
+                if st in ("Stopped", "Restarting"):
+                    res.count("scheduled_skipped_no_run_active")
+                else:
+                    rig.e.schedule_execution(cmd)          # the counting wrapper above: a request of the budget
+                    res.count(f"scheduled_{cmd}_while_run_active")
+                    S["sched_start"] = cmd == "Start"
+                    hist.append((rig.k, "sched", cmd))
             elif sym == RELOAD:
                 # the user loads the (same) method again between two runs: another interpreter reset
                 if st == "Stopped":
@@ -578,6 +645,11 @@ def run_shard(spec):
     res.exhaustive_parts.append(f"all {n}^{L - 1} sequences of {L - 1} symbols x all {2 ** (L - 1) - 1} other tick masks")
     res.exhaustive_parts.append(f"all {n}^{L - 1} sequences of {L - 1} symbols on each of {len(METHODS)} methods that "
                                 "issue Stop/Restart/Pause/Hold themselves")
+    n2 = len(ALPHA2)
+    res.exhaustive_parts.append(f"interpreter path: first Start, then all {n2}^{L - 1} - {n}^{L - 1} sequences of {L - 1} "
+                                f"symbols over the {n2}-symbol alphabet (+ {NEW}) with at least one added symbol")
+    if spec["shard"] == 0:
+        registry_covered(res)
     nst = len(CYCLE_STEPS)
     res.exhaustive_parts.append(f"lifetimes, base method: first Start followed by 0..3 ticks x all {nst}^{L - 1} sequences "
                                 f"of {L - 1} (cycle command, gap) steps, gap = nominal completion -1 .. +2 ticks")
